@@ -67,6 +67,8 @@ static void runPlanInChild(const char* text, size_t len) {
 		simReadWindow() = size_t(ju64(plan, "read_window", 0));
 		if (simReadWindow()) ctx.fault("F-CHUNK");
 		simReuseObject() = jbool(plan, "reuse_object", false);
+		simPipeSaves() = jbool(plan, "pipe_saves", false);
+		if (simPipeSaves()) ctx.fault("F-NOSEEK");
 		alarm(timeout);
 		auto fn = findProfile(profile);
 		if (!fn) {
